@@ -24,7 +24,7 @@ REAL = REAL_NET
 STUB = STUB_NET
 ASSUMPTIONS = ASSUME_NET + ["state is sampled once per event-loop iteration through the public `state` property",
                             "an attempt already in flight when close() starts may complete, provided the client shuts "
-                            "it within 5 virtual seconds (a serial client first drains its configuration packet) and never reports CONNECTED",
+                            "it within 5 virtual seconds plus whatever the gateway stalls its writes by flow control (a serial client first drains its configuration packet) and never reports CONNECTED",
                             "'background tasks finish' has no deadline: after the run the simulation continues (heartbeat "
                             "stopped) until all tasks of the client are done or no timer, simulator event or ready callback "
                             "is left; only tasks pending then (or 2 virtual hours later) are reported"]
@@ -276,7 +276,9 @@ def evaluate(plan, o):
             if c["closed_at"] is None:
                 v.append(viol("C14.K2" + sfx, _accept_trace_ev(o, c), "connection %d was established at t=%.6f after close() "
                               "started (attempt was in flight) and the client never shut it" % (c["id"], c["at"])))
-            elif c["closed_at"][0] - c["at"] > 5.0:
+            elif c["closed_at"][0] - c["at"] > 5.0 + sum((((c["entry"].get("w") or {}).get("pause")) or {}).values()):
+                # (a serial client drains its configuration packet before its connect step returns: a write the gateway
+                # stalls by flow control delays the shutdown by as much)
                 v.append(viol("C14.K2" + sfx, _accept_trace_ev(o, c), "connection %d established after close() was shut only "
                               "%.3f s later" % (c["id"], c["closed_at"][0] - c["at"])))
     done_closes = [op for op in closes if op["end"] is not None]
